@@ -196,7 +196,10 @@ def o5(h, st):
 
 
 @contract("C20", "O8.QPE_iQPE.simulate", level="B",
-          structures=lambda tier: [{"k": k, "m": m, "solver": s, "ham": hm} for k in (2, 3) for m in range(2 ** k) for s in ("qpe", "iqpe") for hm in ("Z0", "Z0+Z1", "X0X1")][:: 1 if tier != "quick" else 3],
+          structures=lambda tier: [{"k": k, "m": m, "solver": s, "ham": hm} for k in (2, 3) for m in range(2 ** k) for s in ("qpe", "iqpe") for hm in ("Z0", "Z0+Z1", "X0X1")][:: 1 if tier != "quick" else 3]
+                                  # Hamiltonians whose support has a GAP below its highest qubit (an idle state qubit, left in |0> or flipped by the reference circuit)
+                                  + [{"k": k, "m": m, "solver": s, "ham": hm} for k in (2, 3) for m in range(2 ** k) for s in ("qpe", "iqpe")
+                                     for hm in ("Z0|Z2", "Z0|Z2 idle flipped", "Z1|Z2", "Z1|Z2 idle flipped")][:: 1 if tier != "quick" else 5],
           native_samples=lambda st, rnd, tier: [{}],
           targets=[(QPE, "QPESolver.simulate"), (IQPE, "IterativeQPESolver.simulate"), (IQPE, "IterativeQPESolver.build")])
 def o8(h, st):
@@ -214,6 +217,17 @@ def o8(h, st):
     elif st["ham"] == "Z0+Z1":
         qop, ref = QubitOperator("Z0", a) + QubitOperator("Z1", a / 2) + QubitOperator("", a / 2), Circuit([Gate("X", 0)], n_qubits=2)   # -a + a/2 + a/2 = 0 -> total energy 0?  use below
         qop = QubitOperator("Z0", a / 2) + QubitOperator("Z1", -a / 2) + QubitOperator("", 0.0)     # on |10>: -a/2 - a/2 = -a
+    if "|" in st["ham"] and m == 0:
+        a = 2 * math.pi               # a full turn: the phase 0 with non-vanishing coefficients (an all-zero operator has no support at all)
+    if st["ham"] in ("Z0", "Z0+Z1"):
+        pass
+    elif st["ham"].startswith("Z0|Z2"):
+        # on |1 x 0>: Z0 = -1, Z2 = +1  ->  -a/2 - a/2 = -a, whatever the idle qubit 1 holds
+        qop = QubitOperator("Z0", a / 2) + QubitOperator("Z2", -a / 2)
+        ref = Circuit([Gate("X", 0)] + ([Gate("X", 1)] if "flipped" in st["ham"] else []), n_qubits=3)
+    elif st["ham"].startswith("Z1|Z2"):
+        qop = QubitOperator("Z1", a / 2) + QubitOperator("Z2", -a / 2)
+        ref = Circuit([Gate("X", 1)] + ([Gate("X", 0)] if "flipped" in st["ham"] else []), n_qubits=3)
     else:
         qop, ref = QubitOperator("X0 X1", a), Circuit([Gate("H", 0), Gate("CNOT", 1, 0), Gate("Z", 0)], n_qubits=2)   # (|00>-|11>)/sqrt2: XX = -1
     cls = QPESolver if st["solver"] == "qpe" else IterativeQPESolver
